@@ -29,6 +29,7 @@ func elemCorpus(tier string) []ElemInst {
 	add(Ptr(leaf), false, false) // pointers are ==-comparable, but goderive treats *struct via derived Equal
 	add(Slice(B("int")), false, false)
 	add(leaf, true, false)
+	add(Slice(B("uint8")), false, false) // []byte elements: the plugins have bytes.* shortcuts for this shape
 	if tier != "quick" {
 		add(B("float64"), true, true)
 		add(B("uint8"), true, true)
